@@ -26,6 +26,10 @@ def pspaces():
     yield 'rn4^2', odl.rn(4) ** 2
     yield 'discr^2', odl.uniform_discr(0, 2, 5) ** 2
     yield 'discr2d^2', odl.uniform_discr([0, 0], [1, 2], (3, 2)) ** 2
+    # component-weighted power spaces (the vector-field functionals must use the weights consistently in value,
+    # gradient, proximal and conjugate)
+    yield 'rn4^2;w=[1,4]', odl.ProductSpace(odl.rn(4), 2, weighting=[1.0, 4.0])
+    yield 'discr^2;w=2.5', odl.ProductSpace(odl.uniform_discr(0, 2, 5), 2, weighting=2.5)
 
 
 def rand_el(sp, rng, scale=1.0):
@@ -59,6 +63,8 @@ def funcs(sp, rng):
     yield 'ConstantFunctional', lambda: S.ConstantFunctional(sp, 2.0), ('smooth',)
     yield 'IndicatorZero', lambda: S.IndicatorZero(sp), ('indicator',)
     yield 'KullbackLeibler(prior)', lambda: S.KullbackLeibler(sp, gp()), ('kl',)
+    # prior with exact zeros (documented as allowed: 0 log 0 := 0); grad f(x) = 1 - g/x is exactly 1 there
+    yield 'KullbackLeibler(prior-with-zeros)', lambda: S.KullbackLeibler(sp, _zero_some(gp(), rng)), ('kl',)
     yield 'KullbackLeibler', lambda: S.KullbackLeibler(sp), ('kl',)
     yield 'KullbackLeibler(prior).convex_conj', lambda: S.KullbackLeibler(sp, gp()).convex_conj, ('klcc',)
     yield 'KullbackLeiblerCrossEntropy(prior)', lambda: S.KullbackLeiblerCrossEntropy(sp, gp()), ('kl',)
@@ -213,7 +219,22 @@ def composed(sp, rng, n, depth=(2, 3), pairs=()):
         yield 'composed:' + name, thunk, tuple(tags) + ('composed', 'base:' + bname), ref
 
 
+def _zero_some(el, rng):
+    a = np.asarray(el).copy()
+    flat = a.reshape(-1)
+    flat[rng.choice(flat.size, size=max(1, flat.size // 3), replace=False)] = 0.0
+    return el.space.element(a)
+
+
 def pfuncs(sp, rng):
+    for rec in _pfuncs(sp, rng):
+        # SeparableSum builds its own (unweighted) product domain: not a functional on a component-weighted space
+        if 'SeparableSum' in rec[0] and 'PNone' not in util.weighting_tag(sp):
+            continue
+        yield rec
+
+
+def _pfuncs(sp, rng):
     g = lambda: rand_el(sp, rng)
     yield 'GroupL1Norm', lambda: S.GroupL1Norm(sp), ()
     yield 'GroupL1Norm(1)', lambda: S.GroupL1Norm(sp, 1), ()
@@ -234,6 +255,12 @@ def pfuncs(sp, rng):
 
 
 def nuclear(rng):
+    # matrix-valued fields over an image grid (>= 2 axes, square and non-square)
+    for bname, base in (('rn(3,3)', odl.rn((3, 3))), ('discr(2,3)', odl.uniform_discr([0, 0], [1, 1], (2, 3)))):
+        N2 = odl.ProductSpace(odl.ProductSpace(base, 2), 2)
+        yield 'NuclearNorm(1,2)/' + bname, N2, lambda N2=N2: S.NuclearNorm(N2, outer_exp=1, singular_vector_exp=2), ()
+        yield 'NuclearNorm(2,2)/' + bname, N2, lambda N2=N2: S.NuclearNorm(N2, outer_exp=2, singular_vector_exp=2), ()
+        yield 'NuclearNorm(1,1)/' + bname, N2, lambda N2=N2: S.NuclearNorm(N2, outer_exp=1, singular_vector_exp=1), ()
     NN = odl.ProductSpace(odl.ProductSpace(odl.rn(3), 2), 2)
     yield 'NuclearNorm(1,2)', NN, lambda: S.NuclearNorm(NN, outer_exp=1, singular_vector_exp=2), ()
     yield 'NuclearNorm(1,1)', NN, lambda: S.NuclearNorm(NN, outer_exp=1, singular_vector_exp=1), ()
